@@ -9,7 +9,9 @@ Bind: the bytes TLC wrote ARE the files; each is loaded by libinterrogatedb in a
 spec's base database, or into an empty process), every function of the query interface is dumped for every
 index and compared with the spec's global database, InterrogateDatabase::write is compared byte for byte with
 the spec's writer.  Real databases written by `interrogate -od` go through the spec's reader (TLC) and through
-the library the same way; their prefixes must be flagged whole as well."""
+the library the same way; their prefixes must be flagged whole as well.  HISTORIES (spec IdbFileHist): two or
+three files of different minor formats, each with elements (the version-gated record kind), are loaded into ONE
+process, one by one and all at once, and queried / re-serialised the same way."""
 import os, json, threading, time
 from ..common import MachineryError, REPO, HARNESS, NCPU
 from .. import build, tlc, run
@@ -85,7 +87,11 @@ def run_check(ctx):
 
     def t_table():
         box["table"] = tlc.run("IdbQueryMC", "IdbQuery_table", env={"VERIF_DUMP": tdump}, workers=1, timeout=300)
-    ths = [threading.Thread(target=t_main), threading.Thread(target=t_table)]
+    hdump = os.path.join(ctx.tmp, "hist.ndjson")
+
+    def t_hist():
+        box["hist"] = tlc.run("IdbFileHistMC", "IdbFile_hist", env={"VERIF_DUMP": hdump}, workers=2, timeout=900)
+    ths = [threading.Thread(target=t_main), threading.Thread(target=t_table), threading.Thread(target=t_hist)]
     for t in ths:
         t.start()
     # meanwhile: real databases
@@ -157,7 +163,7 @@ def run_check(ctx):
         judge(ctx, table, r, results[cid], whole, base)
     ctx.cov["evaluations"] += n_eval
     ctx.cov["traces_validated_against_impl"] += n_eval
-    ctx.cov["distinct_nontrivial"] = len(distinct)
+    ctx.cov["distinct_nontrivial"] = len(distinct)      # (histories are added by replay_histories)
     ctx.notes["generated_files"] = len(recs)
     ctx.notes["prefix_files"] = sum(1 for r in recs if r["cut"] != -1)
     ctx.notes["damaged_header_files"] = sum(1 for r in recs if r["kind"] not in ("ok", "idmatch", "modok"))
@@ -166,6 +172,9 @@ def run_check(ctx):
                         cut=r["cut"], error_flag=r["err"], records_visible=sum(len(r["glob"][k]) for k in Q.KINDS)))
 
     phases["judge"] = round(time.time() - t0, 1)
+    # ---- histories: files of different minor formats in one process ---------------------------
+    replay_histories(ctx, table, box["hist"], hdump, base_path)
+    phases["histories"] = round(time.time() - t0, 1)
     # ---- real databases --------------------------------------------------------------------
     replay_real(ctx, table, real)
     phases["real"] = round(time.time() - t0, 1)
@@ -228,6 +237,75 @@ def judge(ctx, table, r, out, whole, base):
 
 
 # -------------------------------------------------------------------------------------------------
+def replay_histories(ctx, table, res, hdump, base_path):
+    """every history of IdbFileHist in ONE library process, the files loaded one by one and all at once"""
+    ctx.add_tlc(res)
+    if res.verdict == "invariant":
+        raise MachineryError("IdbFileHist: invariant %s violated in the model\n%s" % (res.violated, res.out[-2500:]))
+    tlc.must_ok(res, "histories")
+    try:
+        hs = [x for x in tlc.read_dump(hdump) if x.get("hist")]
+    except ValueError as e:
+        raise MachineryError("TLC dump unreadable: %s" % e)
+    if not hs:
+        raise MachineryError("no history dumped")
+    cases, index = [], {}
+    for n, h in enumerate(hs):
+        texts = [bytes(f).decode("latin-1") for f in h["files"]]
+        hd = h["hdrs"]
+        maxidx = h["gnext"] + 1
+        for staged in (True, False):
+            setup = [["db", base_path], ["touch"]] if h["pre"] == "base" else []
+            for t in texts:
+                setup.append(["dbmem", t])
+                if staged:
+                    setup.append(["touch"])
+            cid = "h%d%s" % (n, "s" if staged else "a")
+            cases.append({"id": cid, "setup": setup,
+                          "queries": [["c", "interrogate_number_of_types"], ["c", "interrogate_error_flag"],
+                                      ["dump", maxidx, MAXPOS],
+                                      ["rewrite", hd["id"], Q.b2s(hd["lib"]), Q.b2s(hd["hash"]), Q.b2s(hd["mod"])]]})
+            index[cid] = (h, staged)
+    results = Q.run_driver(ctx, cases, timeout=10, tag="hist")
+    exp_cache = {}
+    for cid, (h, staged) in index.items():
+        what = "history of %d files in formats %s (%s, preloaded: %s)" % (
+            len(h["files"]), ", ".join("3.%d" % m for m in h["minors"]),
+            "each loaded before the next is requested" if staged else "requested together", h["pre"])
+        payload = dict(files=[bytes(f).decode("latin-1") for f in h["files"]], minors=h["minors"], preloaded=h["pre"],
+                       staged=staged, stderr=results[cid]["stderr"])
+        rr = results[cid]["r"]
+        deaths = [x for x in rr if Q.died(x)]
+        if deaths or len(rr) < 4:
+            ctx.violation("loading a %s: %s" % (what, Q.describe_death(deaths[0]) if deaths else "no answer"), payload)
+            continue
+        _, flag, dump, rw = rr
+        if flag:
+            ctx.violation("%s: the error flag is set, the spec demands every file to load" % what, payload)
+            continue
+        key = id(h)
+        if key not in exp_cache:
+            defs = ([BASE_DEF] if h["pre"] == "base" else []) + h["defs"]
+            exp_cache[key] = Q.Db(table, h["glob"], defs, h["gnext"]).expected_dump(h["gnext"] + 1, MAXPOS)
+        d = Q.diff_dump(exp_cache[key], dump)
+        if d:
+            ctx.violation("%s: query interface differs from the spec's database: %s" % (what, "; ".join(
+                "%s(%s%s) = %r, expected %r" % (fn, i, "" if n is None else ", %s" % n, g, e) for fn, i, n, e, g in d[:4])), payload)
+            continue
+        got = rw["text"].encode("latin-1") if isinstance(rw, dict) and "text" in rw else None
+        if got != bytes(h["rw"]):
+            ctx.violation("%s: InterrogateDatabase::write afterwards gives different bytes" % what,
+                          dict(payload, expected=bytes(h["rw"]).decode("latin-1"), observed=None if got is None else got.decode("latin-1")))
+    ctx.cov["evaluations"] += len(index)
+    ctx.cov["traces_validated_against_impl"] += len(index)
+    ctx.cov["distinct_nontrivial"] += len(index)
+    ctx.notes["histories"] = len(hs)
+    ctx.notes["history_replays"] = len(index)
+    h = hs[len(hs) // 2]
+    ctx.sample(dict(history=[bytes(f).decode("latin-1") for f in h["files"]], formats=h["minors"], preloaded=h["pre"],
+                    elements_visible=len(h["glob"]["e"])))
+
+
 def replay_real(ctx, table, real):
     inp = os.path.join(ctx.tmp, "ext.json")
     dump = os.path.join(ctx.tmp, "ext.ndjson")
